@@ -49,6 +49,13 @@ func NewChain(u *Universe, g Genesis) *Chain {
 	return &Chain{Rep: NewReplica(u, g)}
 }
 
+// AllTxs returns every transaction the chain has executed so far, including those of the open block.
+func (c *Chain) AllTxs() []DeliveredTx {
+	c.mu.Lock()
+	defer c.mu.Unlock()
+	return append(append([]DeliveredTx{}, c.Log...), c.openTxs...)
+}
+
 func (c *Chain) Height() int64 { c.mu.Lock(); defer c.mu.Unlock(); return int64(len(c.Results)) }
 
 func (c *Chain) ensureOpen() {
